@@ -65,7 +65,7 @@ static const nspell NSP[] = {
     {"%n", "plain", 0}, {"%ln", "length-l", 0}, {"%lln", "length-ll", 0}, {"%hn", "length-h", 0}, {"%hhn", "length-hh", 0}, {"%jn", "length-j", 0}, {"%zn", "length-z", 0}, {"%tn", "length-t", 0},
     {"%5n", "width", 0}, {"%-n", "flag-minus", 0}, {"%0n", "flag-zero", 0}, {"% n", "flag-space", 0}, {"%+n", "flag-plus", 0}, {"%#n", "flag-hash", 0}, {"%.3n", "precision", 0},
     {"%-5ln", "flag+width+length", 0}, {"%*n", "star-width", 1}, {"%%%n", "after-escaped-percent", 0}, {"%%%%%n", "after-two-escaped-percents", 0}, {"%%%ln", "after-escaped-percent+length", 0},
-    {"%1$n", "positional", 0},
+    {"%1$n", "positional", 0}, {"%Zn", "length-Z(glibc)", 0}, {"%mn", "flag-m(glibc)", 0}, {"%Ln", "length-L", 0}, {"%qn", "length-q", 0}, {"%'n", "flag-quote", 0}, {"%In", "flag-I(glibc)", 0},
 };
 #define NNSP ((int)(sizeof NSP / sizeof NSP[0]))
 static const char *PCTX[] = {"%s", "x%s", "%%d%s", "v=%%d;%s"};   /* printf contexts: %%d consumes an int before */
